@@ -122,7 +122,7 @@ static void do_raise(int signo)
 /* one action chosen by the explorer at a callback: the menu holds only what is applicable right now */
 static int act(int self)
 {
-	enum { A_NONE, A_DEL_SELF, A_READD, A_NEWJOB, A_NEWTIMER, A_STALE, A_RAISE1, A_RAISE2, A_STOP, A_NEG, A_DEL_OTHER, A_TOGGLE, A_MOD, A_REPLACE, A_CLOSE_FIRST, A_SIGMOD };
+	enum { A_NONE, A_DEL_SELF, A_READD, A_NEWJOB, A_NEWTIMER, A_STALE, A_RAISE1, A_RAISE2, A_STOP, A_NEG, A_DEL_OTHER, A_TOGGLE, A_MOD, A_REPLACE, A_CLOSE_FIRST, A_SIGMOD, A_NULLH };
 	struct { int code, arg; } m[64];
 	int n = 0, i, c, ret = 0;
 	if (actions_left <= 0) return 0;
@@ -132,6 +132,7 @@ static int act(int self)
 	m[n].code = A_NEWJOB; m[n++].arg = 0;
 	m[n].code = A_NEWTIMER; m[n++].arg = 0;
 	if (have_stale) { m[n].code = A_STALE; m[n++].arg = 0; }
+	m[n].code = A_NULLH; m[n++].arg = 0;
 	if (sig_handled(SIGUSR1)) { m[n].code = A_RAISE1; m[n++].arg = 0; }
 	if (sig_handled(SIGUSR2)) { m[n].code = A_RAISE2; m[n++].arg = 0; }
 	m[n].code = A_STOP; m[n++].arg = 0;
@@ -160,6 +161,13 @@ static int act(int self)
 	case A_STALE:
 		{ int32_t rc = qb_loop_timer_del(L, stale_th); vp_log("    timer_del(stale handle) = %d", rc); if (rc == 0) vp_fail("a stale timer handle (fired or already deleted) was accepted by timer_del"); }
 		break;
+	case A_NULLH: {
+		/* "cancel if pending, then re-arm" with a handle that was never armed: the null handle is refused, nothing else changes */
+		int32_t rc = qb_loop_timer_del(L, 0);
+		vp_log("    timer_del(null handle) = %d", rc);
+		if (rc == 0) vp_fail("timer_del accepted the null handle (from inside a %s callback)", R[self].type == T_TIMER ? "timer" : "non-timer");
+		if (qb_loop_timer_is_running(L, 0)) vp_fail("is_running reports the null handle as a pending timer");
+		break; }
 	case A_RAISE1: do_raise(SIGUSR1); break;
 	case A_RAISE2: do_raise(SIGUSR2); break;
 	case A_STOP: qb_loop_stop(L); stop_called_iter = loop_iterations; vp_log("    qb_loop_stop"); break;
